@@ -427,13 +427,15 @@ def run(p):
     with mp.Pool(16) as pool:
         accs = pool.map(sample_worker, jobs)
         # boundary-rich sub-lattice: every m:s at d = 0 and d = 259
-        accs += pool.map(lattice_degree, [0, 259] if not thorough else list(range(360)), chunksize=1)
+        # and, in the quick tier, one degree from 512 up (where HP values need the extra rounding step), drawn from the seed
+        hi = 512 + (seed() * 37) % 208
+        accs += pool.map(lattice_degree, [0, 259, hi] if not thorough else list(range(360)) + [512, 600, hi, 719], chunksize=1)
     total = Acc()
     for a in accs:
         a.merge_into(p)
     for kind in ('lattice', 'lattice720', 'hpfrac', 'boundary', 'random', 'reject', 'ctor'):
         p.stats.add('inputs:' + kind, sum(j[2] for j in jobs if j[0] == kind))
-    p.stats.add('inputs:lattice-exhaustive-degrees', 360 if thorough else 2)
+    p.stats.add('inputs:lattice-exhaustive-degrees', 364 if thorough else 3)
 
     class Counted(set):
         def __len__(self_inner):
